@@ -117,6 +117,20 @@ fn torus_case(ctx: &mut Ctx, p: usize, q: usize) {
     run_link(ctx, &pd, &format!("T({p},{q})"), pd.n() > 20, "torus");
 }
 
+/// split unions and connected sums of torus links: torsion of DIFFERENT orders in one homological degree, spread
+/// over several quantum degrees (Kuenneth), which single torus knots of this size do not have
+fn composite_case(ctx: &mut Ctx, k: usize) {
+    let t = |p: usize, q: usize, off: i32| -> Vec<i32> { let one: Vec<i32> = (1..p as i32).map(|x| x + off).collect(); (0..q).flat_map(|_| one.clone()).collect() };
+    let (name, n, w): (&str, usize, Vec<i32>) = match k {
+        0 => ("T(4,5) ⊔ T(2,3)", 6, { let mut w = t(4, 5, 0); w.extend(t(2, 3, 4)); w }),
+        1 => ("T(4,5) # T(2,3)", 5, { let mut w = t(4, 5, 0); w.extend(t(2, 3, 3)); w }),
+        2 => ("T(3,5) ⊔ T(3,4)", 6, { let mut w = t(3, 5, 0); w.extend(t(3, 4, 3)); w }),
+        _ => ("T(4,5) ⊔ T(2,5)", 6, { let mut w = t(4, 5, 0); w.extend(t(2, 5, 4)); w }),
+    };
+    let Ok(pd) = braid_closure(n, &w) else { ctx.inconclusive("generator_invalid_diagram"); return };
+    run_link(ctx, &pd, name, true, "torus-composite");
+}
+
 fn table_case(ctx: &mut Ctx, idx: usize) {
     let (name, _) = &table()[idx];
     let Some(pd) = load_pd(name) else { return };
@@ -136,6 +150,7 @@ pub fn run(ctx: &mut Ctx) {
     let torus: Vec<(usize, usize)> = if ctx.quick() { vec![(2, 5), (3, 4), (3, 5), (4, 5), (3, 7), (5, 6), (4, 7), (6, 7)] }
         else { vec![(2, 5), (2, 7), (3, 4), (3, 5), (3, 7), (3, 8), (4, 5), (4, 7), (5, 6), (5, 7), (4, 9), (6, 7), (5, 8)] };
     for (i, &(p, q)) in torus.iter().enumerate() { ctx.case("torus", i as u64, |c, _| torus_case(c, p, q)) }
+    for k in 0..4usize { ctx.case("torus-composite", k as u64, |c, _| composite_case(c, k)) }
     let t = table();
     let step = ctx.by_tier(5, 1);
     for i in (0..t.len()).step_by(step) { if t[i].1 <= ctx.by_tier(10, 11) { ctx.case("table", i as u64, |c, _| table_case(c, i)) } }
